@@ -818,9 +818,12 @@ fn remove_file(path: impl AsRef<Path>) -> Result<(), ChunkCacheError> {
 }
 
 /// removes a directory but disregards a "NotFound" error if the directory is already gone
+/// and a "DirectoryNotEmpty" error if it has been refilled concurrently
 fn remove_dir(path: impl AsRef<Path>) -> Result<(), ChunkCacheError> {
     if let Err(e) = std::fs::remove_dir(path) {
-        if e.kind() != ErrorKind::NotFound {
+        // Between the emptiness check and this call a concurrent put may have placed a file in the
+        // directory; then there is nothing to remove, and it is not an error.
+        if e.kind() != ErrorKind::NotFound && e.kind() != ErrorKind::DirectoryNotEmpty {
             return Err(e.into());
         }
     }
